@@ -1119,6 +1119,60 @@ Proof.
     destruct X as [[x0 x1] x2], Y as [[y0 y1] y2]. destruct (mv3 m (0, 0, 1)) as [[z0 z1] z2]. d3 tr. unf. pair_eq; ring.
 Qed.
 
+
+(* cone beam without shift functions: source and detector reference point lie on circles of radii
+   src_radius / det_radius about the point  translation + along * axis  of the axis, on opposite sides *)
+Lemma cone_circles (g : cone) (a : R * R) (ang twopi : R) :
+  dot3 (c_axis g) (c_axis g) = 1 -> dot3 (c_s2d g) (c_s2d g) = 1 -> on_circle a ->
+  let o := add3 (c_tr g) (scal3 (cone_along g ang twopi 0) (c_axis g)) in
+  let s := sub3 (cone_src sqrt g a ang twopi (0, 0, 0)) o in
+  let r := sub3 (cone_refpoint sqrt g a ang twopi (0, 0, 0)) o in
+  dot3 s s = c_rs g * c_rs g /\ dot3 r r = c_rd g * c_rd g /\
+  scal3 (c_rs g) r = scal3 (- c_rd g) s /\
+  dot3 (sub3 r s) (sub3 r s) = (c_rs g + c_rd g) * (c_rs g + c_rd g).
+Proof.
+  intros Hu Hd Ha. cbn zeta. unfold cone_src, cone_refpoint, cone_rot.
+  set (t1 := sdiv3 _ _). set (t2 := sdiv3 _ _). generalize (cone_along g ang twopi 0). intros al.
+  pose proof (axis_rot_rot _ a Hu Ha) as [Hr _]. set (m := axis_rot (c_axis g) a) in *.
+  assert (E1 : add3 (scal3 (- c_rs g) (c_s2d g)) (add3 (scal3 0 (neg3 (c_s2d g))) (scal3 0 t1))
+               = scal3 (- c_rs g) (c_s2d g)).
+  { destruct (c_s2d g) as [[d0 d1] d2], t1 as [[x0 x1] x2]. unf. pair_eq; ring. }
+  assert (E2 : add3 (scal3 (c_rd g) (c_s2d g)) (add3 (scal3 0 (c_s2d g)) (scal3 0 t2))
+               = scal3 (c_rd g) (c_s2d g)).
+  { destruct (c_s2d g) as [[d0 d1] d2], t2 as [[x0 x1] x2]. unf. pair_eq; ring. }
+  numR. rewrite E1, E2, !(mv3_scal m).
+  pose proof (rot3_isometry m (c_s2d g) (c_s2d g) Hr) as Hi. rewrite Hd in Hi.
+  destruct (mv3 m (c_s2d g)) as [[w0 w1] w2], (c_tr g) as [[t0 t1'] t2'], (c_axis g) as [[z0 z1] z2].
+  clear Hr E1 E2. set (rs := c_rs g). set (rd := c_rd g). unf.
+  repeat split; try (pair_eq; ring); nsatz.
+Qed.
+
+(* parallel_beam_geometry in 3-d (Parallel3dAxisGeometry, default axes): the detector coordinates of the
+   projection of (x, y, z) at angle a are (x cos + y sin, z) -- inside [-rho, rho] x [min_z, max_z] *)
+Definition par3a_coords (g : @par3a R) (a : R * R) (X : V3) : R * R :=
+  let '(a0, a1) := par3a_det_axes g a in
+  (dot3 (sub3 X (par3a_refpoint g a)) a0, dot3 (sub3 X (par3a_refpoint g a)) a1).
+Lemma par3a_factory_covers (ax bx ay by_ az bz x y z : R) (a : R * R) :
+  ax <= x <= bx -> ay <= y <= by_ -> az <= z <= bz -> on_circle a ->
+  let '(lo, hi) := par_factory_det_range sqrt ax bx ay by_ in
+  let '(u, v) := par3a_coords par3a_default a (x, y, z) in
+  lo <= u <= hi /\ az <= v <= bz.
+Proof.
+  intros Hx Hy Hz Ha. unfold par_factory_det_range, rho_of. numR.
+  destruct a as [c s]. unfold on_circle in Ha. cbn [fst snd] in Ha.
+  unfold par3a_coords, par3a_det_axes, par3a_refpoint, par_refpoint3, par3a_rot, par3a_default.
+  cbn [pa_axis pa_pos pa_tr pa_det det3_axes]. unf.
+  split.
+  - apply abs_le_sqrt; [apply rho_sq_nonneg|].
+    eapply Rle_trans; [|apply (rect_in_rho _ _ _ _ _ _ Hx Hy)].
+    match goal with |- ?u * ?u <= _ => assert (E : u = x * c + y * s) by ring; rewrite E end.
+    pose proof (Rle_0_sqr (x * s - y * c)) as Hsq. unfold Rsqr in Hsq.
+    assert (E2 : (x * c + y * s) * (x * c + y * s) + (x * s - y * c) * (x * s - y * c)
+                 = (x * x + y * y) * (c * c + s * s)) by ring.
+    rewrite Ha in E2. lra.
+  - match goal with |- _ <= ?v <= _ => assert (E : v = z) by ring; rewrite E end. exact Hz.
+Qed.
+
 (* ---- statements assembled for Props.v ---- *)
 Lemma axis_rotation_is_rotation_l : forall (ax : R * R * R) (a : R * R),
   dot3 ax ax = 1 -> on_circle a ->
